@@ -390,9 +390,22 @@ def r4_seed_propagation(ctx, rep, R='C11.R4'):
     ext = [c for c in own_calls(sp.node) if isinstance(c.func, ast.Attribute) and
            c.func.attr in ('extend', 'append') and is_name(c.func.value, 'args') and c.args and
            '--shuffle-seed' in norm(c.args[0])]
+    # args += [...] is the same addition
+    class _Add:
+        def __init__(self, st):
+            self.args, self.st = [st.value], st
+            self._parent = getattr(st, '_parent', None)
+            self.lineno = st.lineno
+    aug = [n for n in ast.walk(sp.node) if isinstance(n, ast.AugAssign) and isinstance(n.op, ast.Add) and
+           is_name(n.target, 'args') and '--shuffle-seed' in norm(n.value)]
+    anchor = {}
+    for n in aug:
+        a_ = _Add(n)
+        anchor[id(a_)] = n
+        ext.append(a_)
     ok = len(ext) == 1 and 'options.shuffle_seed' in norm(ext[0].args[0])
     if ok:
-        lits = path_literals(ext[0], sp.node)
+        lits = path_literals(anchor.get(id(ext[0]), ext[0]), sp.node)
         names = sorted((norm(e), pos) for e, pos in lits)
         ok = all(n in (('options.shuffle', True), ('options.shuffle_seed is None', False))
                  for n in names) and ('options.shuffle', True) in names
@@ -418,7 +431,7 @@ def r4_seed_propagation(ctx, rep, R='C11.R4'):
                   'the parser has number-like options %s' % neg_like,
                   'the seed is forwarded as a word of its own; the option parser defines %s, so a '
                   'negative seed (\'-5\') is taken for an option and every child fails to start its '
-                  'run' % neg_like, key='seed:one-word', func=sp.qualname, where=ctx.where(sp, ext[0]))
+                  'run' % neg_like, key='seed:one-word', func=sp.qualname, where=ctx.where(sp, anchor.get(id(ext[0]), ext[0])))
 
 
 def r5_seed_reported(ctx, rep, R='C11.R5'):
